@@ -24,6 +24,30 @@ ParentsStr(S) == LET seq == SelectSeq(Names, LAMBDA n : n \in S) IN
                  IF Len(seq) = 0 THEN "" ELSE ": " \o (IF Len(seq) = 1 THEN seq[1] ELSE IF Len(seq) = 2 THEN seq[1] \o ", " \o seq[2] ELSE seq[1] \o ", " \o seq[2] \o ", " \o seq[3])
 GraphSrc(g) == "class A" \o ParentsStr(g[1]) \o "\nclass B" \o ParentsStr(g[2]) \o "\nclass C" \o ParentsStr(g[3]) \o "\ndef x := A()\ndef y: B := C()\n"
 
+\* WIDTH: tuples, parameter lists, argument lists and collections of n elements, each used where the checker expands it element by
+\* element (printed, interpolated, passed on, destructured, compared) and followed by a construct that re-queues constraints
+RECURSIVE Numbered(_, _, _, _)
+Numbered(pre, post, n, j) == IF j > n THEN "" ELSE pre \o ToString(j) \o post \o (IF j < n THEN ", " ELSE "") \o Numbered(pre, post, n, j + 1)
+Wide == UNION { LET ty == "(" \o Rep("Int, ", n - 1) \o "Int)"  mixed == "(" \o Rep("Int, Str, ", n - 1) \o "Float)"
+                    lit == "(" \o Rep("1, ", n - 1) \o "1)"     names == Numbered("a", "", n, 1)
+                    params == Numbered("a", ": Int", n, 1)          args == Numbered("", "", n, 1) IN
+                { "def f(t: " \o ty \o ") =>\n    print(t)\n",
+                  "def f(t: " \o ty \o ") =>\n    print(t)\n    if True then print(1)\n",
+                  "def f(t: " \o mixed \o ") =>\n    print(t)\n    if True then print(1)\n",
+                  "def f(t: " \o ty \o ") -> Str => \"{t}\"\n",
+                  "def f(t: " \o ty \o ") =>\n    print(t)\nf(" \o lit \o ")\n",
+                  "def t := " \o lit \o "\nprint(t)\nif True then print(1)\n",
+                  "def t: " \o ty \o " := " \o lit \o "\nprint(\"{t}\")\n",
+                  "def (" \o names \o ") := " \o lit \o "\nprint(a1)\n",
+                  "def f(t: " \o ty \o ") =>\n    def (" \o names \o ") := t\n    print(a1 + a" \o ToString(n) \o ")\n",
+                  "def f(t: " \o ty \o ", u: " \o ty \o ") -> Bool => t = u\n",
+                  "def f(" \o params \o ") -> Int => a1 + a" \o ToString(n) \o "\nprint(f(" \o args \o "))\n",
+                  "print(" \o args \o ")\nif True then print(1)\n",
+                  "def l := [" \o args \o "]\nprint(l)\nfor x in l do print(x)\n",
+                  "def s := {" \o args \o "}\nprint(s)\n",
+                  "def f(x: " \o Rep("Int | ", n - 1) \o "Str) =>\n    print(x)\n    if True then print(1)\n" }
+                : n \in {2, 3, 5, 8, 16, 24} }
+
 \* diagnostics ON tokens that span lines (the end column may lie left or right of the start column): every fault template around
 \* every multi-line token
 MLTokens == { "\"Hello,\nworld\"", "\"a\n" \o Rep(" ", 40) \o "b\"", "\"\"\"doc\nmore\"\"\"", "\"x {1}\ny\"", "\"\n\"", "\"a\n\nb\"", "\"{1\n}\"" }
@@ -59,9 +83,19 @@ BlockForms == { Prelude \o "def v := if c then\n    1\nelse\n    2\nprint(v)", P
                 Prelude \o "def f() -> Int =>\n    if c then\n        1\n    else\n        match 1\n            1 => 10\n            _ => 20\nprint(f())",
                 Prelude \o "def f() -> Int =>\n    return if c then 1 else if c then\n        2\n    else\n        3\nprint(f())",
                 Prelude \o "def (a, b) := if c then\n    (1, 2)\nelse\n    (3, 4)\nprint(a + b)", Prelude \o "def (a, b) := match 1\n    1 => (1, 2)\n    _ => (3, 4)\nprint(a + b)" }
-ValuePositions == BlockForms \cup UNION { InPosition(e) : e \in ValueForms }
+\* else-if chains in value position: every arm inline or as a block, the else on the line of the block's end or with a block of its own
+Arm(v, form, ind) == IF form = "inline" THEN " " \o v ELSE "\n" \o ind \o "    " \o v
+ElseOf(v, form, ind) == CASE form = "same-line" -> " else " \o v [] form = "own-line" -> "\n" \o ind \o "else " \o v [] form = "block" -> "\n" \o ind \o "else\n" \o ind \o "    " \o v
+Chain(ind, t1, t2, e2) == "if c then" \o Arm("1", t1, ind) \o (IF t1 = "inline" THEN " else " ELSE "\n" \o ind \o "else ") \o "if c then" \o Arm("2", t2, ind) \o ElseOf("3", e2, ind)
+ChainOK(t2, e2) == (e2 = "same-line") = (t2 = "inline")       \* `else` on the same line only behind an inline arm
+ElseIfChains == UNION { LET t1 == q[1] t2 == q[2] e2 == q[3] IN
+                        { Prelude \o "def v := " \o Chain("", t1, t2, e2) \o "\nprint(v)", Prelude \o "def v: Int := " \o Chain("", t1, t2, e2) \o "\nprint(v)",
+                          Prelude \o "def f() -> Int =>\n    " \o Chain("    ", t1, t2, e2) \o "\nprint(f())", Prelude \o "def f() -> Int =>\n    return " \o Chain("    ", t1, t2, e2) \o "\nprint(f())",
+                          Prelude \o "def v: Int := 0\nv := " \o Chain("", t1, t2, e2) \o "\nprint(v)" }
+                        : q \in {q \in {"inline", "block"} \X {"inline", "block"} \X {"same-line", "own-line", "block"} : ChainOK(q[2], q[3])} }
+ValuePositions == BlockForms \cup ElseIfChains \cup UNION { InPosition(e) : e \in ValueForms }
 Shapes ==
-   OnMultiLine \cup InStrings \cup Shadowing \cup ValuePositions \cup
+   OnMultiLine \cup InStrings \cup Shadowing \cup ValuePositions \cup Wide \cup
    { Rep("(", n) \o "1" \o Rep(")", n) : n \in {1, 2, 4, 8, 12} }
    \cup { "def x := " \o Rep("[", n) \o "1" \o Rep("]", n) : n \in {1, 2, 4, 8, 12} }
    \cup { "def x := " \o Rep("(", n) \o "1 + " : n \in {1, 3} } \cup { Rep(")", n) : n \in {1, 3} }
